@@ -31,7 +31,11 @@ RULE = ("seeded molecules (1..1500 atoms, sizes and bond counts around 999/1000,
         "metadata keys from the key grammar, metadata, multi-record SD files and headers serialised and parsed by both; "
         "edit histories on parsed SDFiles (rename/del/header/metadata/molecule/insert) against a list reference and, op by op, "
         "against the lazy-container model (incl. SDFile(dict) from records of a parsed file); MOLFile set_structure histories with "
-        "rejected calls; metadata value lines beginning with 'M  END'; strings with `$$$$` inside a line; kekulisable aromatic rings through RDKit with "
+        "rejected calls; an `api` stream (objects reused across calls vs fresh objects, refused calls leave receiver and "
+        "arguments unchanged, NumPy spellings of scalars/arrays, every entry level of the convert wrappers with non-default "
+        "arguments, mapping mix-ins, copy/eq/str/lines/record, limits: 8/9/16/17 charges, 999 atoms, 80-character names); "
+        "to_mol/from_mol options (kekulize, explicit_hydrogen, extra annotations, conformer_id, residue info) in a forked "
+        "child; metadata value lines beginning with 'M  END'; strings with `$$$$` inside a line; kekulisable aromatic rings through RDKit with "
         "argument-unchanged and call-twice checks; "
         "oracle: write->read on the real code through ctab/MOLFile/SDFile and to_mol/from_mol (RDKit), V2000 column "
         "audit of every written line. non-trivial = molecule with >= 2 atoms or a bond or a charge, a key with >= 2 "
@@ -60,7 +64,8 @@ LEVEL_TEXT = ("Theorems over the character-level model, all inputs, no size boun
               "as decide obligations on tables regenerated from the source; C18_sdf_lazy_refines: every edit history on a parsed "
               "SDFile (records/headers/metadata parsed lazily and cached; item assignment and the dict constructor adopt and "
               "rename any record: C18_sdfile_adopt) equals the history on a plain mapping of parsed records; "
-              "C18_molfile_set_structure: a rejected set_structure leaves a MOLFile unchanged, an accepted one reads back. Partial: the RDKit bridge (to_mol/from_mol, "
+              "C18_molfile_set_structure: a rejected set_structure leaves a MOLFile unchanged, an accepted one reads back; "
+              "C18_molfile_header_edit: a header edited in place is what is written; C18_chg_full_lines. Partial: the RDKit bridge (to_mol/from_mol, "
               "conformers) is an external library: tables proved, behaviour tied by the oracle only.")
 LEVEL_NOTE = ("modelled-not-verified: Python float/int formatting and parsing, str methods on ASCII, numpy U2/uint32 stores, "
               "BondList normalisation; RDKit external")
